@@ -66,8 +66,24 @@ def plan(tier, seed):
 
 
 def run(chk):
-    chk.assumptions = TRUSTED
-    chk.cov["trusted_base"] = TRUSTED
+    """sequential / API-level part (this file) + concurrent part (props/c13conc.py: owner/runner interleaving at single-access
+    granularity on x86-TSO, the defer thread's futex handshake, the real defer thread under the cooperative runtime)"""
+    from props import c13conc
+    seq_part(chk)
+    th, ax, un = list(chk.cov.get("theorems", [])), dict(chk.cov.get("axioms", {})), list(chk.cov.get("unproved_full_statements", []))
+    seq_rule = chk.cov.get("rule", "")
+    c13conc.run_part(chk)
+    chk.cov["theorems"] = th + [t for t in chk.cov.get("theorems", []) if t not in th]
+    ax.update(chk.cov.get("axioms", {}))
+    chk.cov["axioms"] = ax
+    chk.cov["unproved_full_statements"] = un + [u for u in chk.cov.get("unproved_full_statements", []) if u not in un]
+    if seq_rule and chk.cov.get("rule") != seq_rule:
+        chk.cov["rule"] = seq_rule + "  ||  concurrent part: " + str(chk.cov.get("rule", ""))
+
+
+def seq_part(chk):
+    chk.assumptions = list(TRUSTED)
+    chk.cov["trusted_base"] = list(TRUSTED)
     proved = chk.proof_part(["UrcuVerif.Props.C13", "drv_defer"], "UrcuVerif.Props.C13", THEOREMS,
                             ["UrcuVerif.Defer", "UrcuVerif.Props.C13", "UrcuVerif.Machine"], unproved=UNPROVED)
     ok, log = build()
@@ -148,6 +164,9 @@ def run(chk):
 
 
 def replay(rp):
+    if rp.get("scenario") == "defer_conc" or ("cmd" in rp and "defer_conc" in os.path.basename(str(rp["cmd"][0]))):
+        from props import c13conc
+        return c13conc.replay(rp)
     ok, log = build()
     if not ok:
         print(log)
